@@ -89,7 +89,7 @@ NO_IDLE_METHOD = {'Apo', 'Aroon', 'Bop', 'TypicalPrice'}
 
 # ---------------------------------------------------------------- series
 REGIMES = ['walk', 'walk', 'wide', 'flat', 'up', 'down', 'zigzag', 'ties', 'plateau', 'offset', 'outlier', 'wide', 'dips',
-           'flatrun', 'penny', 'huge', 'touch']
+           'flatrun', 'penny', 'huge', 'touch', 'flatstart']
 
 
 def q(x):
@@ -105,6 +105,14 @@ def gen_ohlcv(rng, n, regime=None):
         k = 2.0 ** (-15 if regime == 'penny' else 24)
         for f in 'ohlc':
             s[f] = [x * k for x in s[f]]
+        return s, regime
+    if regime == 'flatstart':
+        # the series opens with a long stretch of identical bars (a listing that does not trade yet): gains and losses are all zero
+        s, _ = gen_ohlcv(rng, n, rng.choice(['walk', 'wide']))
+        ln = rng.choice([n, max(1, n // 2), rng.randrange(8, 45)])
+        for i in range(0, min(n, ln)):
+            for f in 'ohlc':
+                s[f][i] = s['c'][0]
         return s, regime
     if regime == 'flatrun':
         # a walk with stretches of identical bars (halted trading); one of them may open the series
